@@ -49,7 +49,7 @@ def _die_with_parent():
 
 
 def run(cmd, **kw):
-    return subprocess.run(cmd, stdout=subprocess.PIPE, stderr=subprocess.STDOUT, text=True, preexec_fn=_die_with_parent, **kw)
+    return subprocess.run(cmd, stdout=subprocess.PIPE, stderr=subprocess.STDOUT, text=True, errors="replace", preexec_fn=_die_with_parent, **kw)
 
 
 # ---------------------------------------------------------------------------------------------
@@ -289,8 +289,12 @@ def exec_cases(cases_path, events_path, profile="dev", mem_kb=4 * 1024 * 1024, t
     while start < ncases:
         if os.path.exists(prog):
             os.remove(prog)
+        # (whatever the code under test writes to stdout / stderr goes to a file: a pipe nobody reads would block it)
+        errp = events_path + ".stderr"
+        errf = open(errp, "wb")
         p = subprocess.Popen(["bash", "-c", "ulimit -v %d; ulimit -s 65536; exec %s %s %s %d" % (mem_kb, exe, cases_path, events_path, start)],
-                             stdout=subprocess.DEVNULL, stderr=subprocess.PIPE, env=dict(os.environ, **(env or {})), preexec_fn=_die_with_parent)
+                             stdout=subprocess.DEVNULL, stderr=errf, env=dict(os.environ, **(env or {})), preexec_fn=_die_with_parent)
+        errf.close()
         # a case hangs when the process has burnt timeout_case seconds of CPU time on it (a busy machine does not
         # make a case hang), or made no progress for 10 x timeout_case seconds of wall-clock time (sleeping hang)
         last = (None, time.time(), _cpu_seconds(p.pid))
@@ -315,7 +319,7 @@ def exec_cases(cases_path, events_path, profile="dev", mem_kb=4 * 1024 * 1024, t
         if p.returncode == 0 and cur == "done":
             break
         if cur in ("", "done"):
-            raise ToolError("pv-exec failed without progress: rc=%s %s" % (p.returncode, p.stderr.read().decode()[-500:]))
+            raise ToolError("pv-exec failed without progress: rc=%s %s" % (p.returncode, open(errp, "rb").read()[-500:].decode(errors="replace")))
         n = int(cur)
         if why is None:
             why = "abort"
